@@ -21,3 +21,9 @@ pub use edge::{Edge, EdgeFlags, EdgeRecord};
 pub use node::{Node, NodeFlags, NodeRecord};
 pub use property::{CompareOp, PropertyStorage};
 pub use store::LpgStore;
+
+// verif-hooks (H8): types needed to construct non-default store / column configurations from outside the crate
+#[cfg(feature = "verif-hooks")]
+pub use property::CompressionMode;
+#[cfg(feature = "verif-hooks")]
+pub use store::LpgStoreConfig;
